@@ -1,4 +1,6 @@
 import Brax.Lemmas.C04Pos
+import Brax.Lemmas.Real
+import Mathlib.Tactic.GCongr
 /-!
 # C04 helper lemmas, part 4: a system at rest stays at rest (spring and positional pipelines)
 
@@ -251,5 +253,297 @@ theorem oneDof_rest_slide (hasLimit : Bool) (lk : LinkP K) (j : Tf K) (d : DofP 
     · linear_combination (lk.cStiffness * c * a3) * hu
 
 end springRest
+
+/-! ## positional pipeline -/
+section posRest
+variable {K : Type} [Field K] [LinearOrder K] [IsStrictOrderedRing K]
+  [HasSqrt K] [HasTrig K] [HasExp K] [HasPow K] [HasF32 K]
+
+theorem not_allClose0_unit (q : Q4 K) (h : Q4.normSq q = 1) : allClose0 [q.w, q.x, q.y, q.z] = false := by
+  by_contra hc
+  rw [Bool.not_eq_false] at hc
+  simp only [allClose0, List.all_cons, List.all_nil, Bool.and_true, Bool.and_eq_true, decide_eq_true_eq,
+    absv_eq_abs] at hc
+  obtain ⟨hw, hx, hy, hz⟩ := hc
+  have h' : q.w * q.w + q.x * q.x + q.y * q.y + q.z * q.z = 1 := h
+  have sq : ∀ a : K, |a| ≤ 1e-8 → a * a ≤ 1e-16 := by
+    intro a ha
+    have h0 := abs_nonneg a
+    have := abs_mul_abs_self a
+    have h2 : |a| * |a| ≤ 1e-8 * 1e-8 := mul_le_mul ha ha h0 (by norm_num)
+    rw [this] at h2
+    calc a * a ≤ 1e-8 * 1e-8 := h2
+      _ = 1e-16 := by norm_num
+  have := sq _ hw; have := sq _ hx; have := sq _ hy; have := sq _ hz
+  have : (1 : K) ≤ 4e-16 := by
+    calc (1 : K) = q.w * q.w + q.x * q.x + q.y * q.y + q.z * q.z := h'.symm
+      _ ≤ 1e-16 + 1e-16 + 1e-16 + 1e-16 := by gcongr
+      _ = 4e-16 := by norm_num
+  norm_num at this
+
+/-- `normalize` leaves a unit quaternion unchanged when `sqrt 1 = 1` -/
+theorem normalize4_unit' (q : Q4 K) (hs : HasSqrt.sqrt (1 : K) = 1) (h : Q4.normSq q = 1) :
+    normalize4 q = q := by
+  have h' : q.w * q.w + q.x * q.x + q.y * q.y + q.z * q.z = 1 := h
+  have e1 : eqZero (1 : K) = false := by
+    rw [Bool.eq_false_iff]; intro hc; rw [eqZero_iff] at hc; exact one_ne_zero hc
+  have hn : safeNorm4 q = 1 := by
+    simp only [safeNorm4, safeNormL, not_allClose0_unit q h, Bool.false_eq_true, if_false, List.foldl]
+    rw [show (0 : K) + q.w * q.w + q.x * q.x + q.y * q.y + q.z * q.z = 1 by rw [← h']; ring]
+    exact hs
+  cases q
+  simp only [normalize4, hn, e1, Bool.false_eq_true, if_false, div_one]
+
+/-- the derived fields of a positional state are what `pipeline.init` / `step` compute -/
+structure PosConsistent (inv : List (Tf K) → List (Motion K) → List K × List K) (s : Sys K)
+    (st : Positional.State K) : Prop where
+  hx : st.x.length = s.numLinks
+  hxd : st.xd.length = s.numLinks
+  hcom : Com.fromWorld s st.x st.xd = (st.x_i, st.xd_i)
+  hj : (Kin.worldToJoint s st.x st.xd).map (·.1) = st.j
+  hjd : (Kin.worldToJoint s st.x st.xd).map (·.2.1) = st.jd
+  hap : (Kin.worldToJoint s st.x st.xd).map (·.2.2.1) = st.a_p
+  hac : (Kin.worldToJoint s st.x st.xd).map (·.2.2.2) = st.a_c
+  hinv : inv st.j st.jd = (st.q, st.qd)
+
+theorem dtf_zero_eq : (0 : Positional.DTf K) = ⟨0, 0⟩ := rfl
+theorem q4_zero_eq : (0 : Q4 K) = ⟨0, 0, 0, 0⟩ := rfl
+
+theorem vecQuatMul_zero (q : Q4 K) : vecQuatMul (0 : V3 K) q = 0 := by
+  simp only [vecQuatMul, v3_zero_x, v3_zero_y, v3_zero_z, neg_zero, zero_mul, sub_zero, add_zero]; rfl
+
+theorem halfVq_zero (c : K) (q : Q4 K) : Positional.halfVq c (0 : V3 K) q = 0 := by
+  simp only [Positional.halfVq, vecQuatMul_zero, Q4.smul, q4_zero_eq, mul_zero]
+
+theorem translationUpdate_zero (a_p xi_p : Tf K) (iInvP : M3 K) (massInvP : K) (a_c xi_c : Tf K)
+    (iInvC : M3 K) (massInvC : K) :
+    Positional.translationUpdate a_p xi_p iInvP massInvP a_c xi_c iInvC massInvC (0 : V3 K) = (0, 0) := by
+  simp only [Positional.translationUpdate, normalize3_zero, smul_zero', cross_zero_right, mulVec_zero,
+    halfVq_zero, v3_neg_zero']
+  rfl
+
+theorem rotationUpdate_zero (xi_p : Tf K) (iInvP : M3 K) (xi_c : Tf K) (iInvC : M3 K) :
+    Positional.rotationUpdate xi_p iInvP xi_c iInvC (0 : V3 K) = (0, 0) := by
+  simp only [Positional.rotationUpdate, normalize3_zero, smul_zero', mulVec_zero, halfVq_zero]
+  rfl
+
+theorem dtf_smul_zero (c : K) : Positional.DTf.smul c (0 : Positional.DTf K) = 0 := by
+  simp only [Positional.DTf.smul, dtf_zero_eq, v3_zero_x, v3_zero_y, v3_zero_z, q4_zero_eq, zero_mul]
+  rfl
+
+theorem addDelta_zero (t : Tf K) : Positional.addDelta t (0 : Positional.DTf K) = t := by
+  obtain ⟨⟨a, b, c⟩, ⟨w, x, y, z⟩⟩ := t
+  simp only [Positional.addDelta, dtf_zero_eq, V3.add_def, v3_zero_x, v3_zero_y, v3_zero_z, add_zero,
+    q4_add_def, q4_zero_eq]
+
+/-- the assembly of a vanishing correction leaves the positions where they are -/
+theorem positionAssemble_zero (parents : List Int) (jsp jsa : K) (a_p a_c x_i : List (Tf K))
+    (iInv : List (M3 K)) (massInv : List K) (dw : List (V3 K × V3 K))
+    (hlen : x_i.length = parents.length)
+    (h : ∀ i, i < parents.length → nth dw i = (0, 0)) :
+    Positional.positionAssemble parents jsp jsa a_p a_c x_i iInv massInv dw = x_i := by
+  unfold Positional.positionAssemble
+  simp only []
+  conv_rhs => rw [eq_tab_of_length hlen]
+  apply tab_congr
+  intro i hi
+  have hupd : ∀ k, k < parents.length →
+      (Positional.DTf.smul jsp (Positional.translationUpdate (nth a_p k)
+          (Kin.takeParent x_i default (parents.getD k (-1)))
+          (maskM (decide (-1 < parents.getD k (-1))) (takeWrap iInv (parents.getD k (-1))))
+          (maskS (decide (-1 < parents.getD k (-1)))
+            (massInv.getD (parents.getD k (-1) % (massInv.length : Int)).toNat 0))
+          (nth a_c k) (nth x_i k) (nth iInv k) (nthS massInv k) (-(nth dw k).1)).1
+        + Positional.DTf.smul jsa (Positional.rotationUpdate
+          (Kin.takeParent x_i default (parents.getD k (-1)))
+          (maskM (decide (-1 < parents.getD k (-1))) (takeWrap iInv (parents.getD k (-1))))
+          (nth x_i k) (nth iInv k) (nth dw k).2).1,
+       Positional.DTf.smul jsp (Positional.translationUpdate (nth a_p k)
+          (Kin.takeParent x_i default (parents.getD k (-1)))
+          (maskM (decide (-1 < parents.getD k (-1))) (takeWrap iInv (parents.getD k (-1))))
+          (maskS (decide (-1 < parents.getD k (-1)))
+            (massInv.getD (parents.getD k (-1) % (massInv.length : Int)).toNat 0))
+          (nth a_c k) (nth x_i k) (nth iInv k) (nthS massInv k) (-(nth dw k).1)).2
+        + Positional.DTf.smul jsa (Positional.rotationUpdate
+          (Kin.takeParent x_i default (parents.getD k (-1)))
+          (maskM (decide (-1 < parents.getD k (-1))) (takeWrap iInv (parents.getD k (-1))))
+          (nth x_i k) (nth iInv k) (nth dw k).2).2) = ((0 : Positional.DTf K), (0 : Positional.DTf K)) := by
+    intro k hk
+    rw [h k hk]
+    simp only [v3_neg_zero', translationUpdate_zero, rotationUpdate_zero, dtf_smul_zero, dtf_add_zero]
+  rw [nth_segmentSum_eq _ _ hi, segAt_zero]
+  · rw [(Prod.mk.inj (hupd i hi)).2, addDelta_zero, addDelta_zero]
+  · intro p hp
+    have hp1 := (List.of_mem_zip hp).1
+    simp only [tab, List.mem_map, List.mem_range] at hp1
+    obtain ⟨k, hk, hk2⟩ := hp1
+    rw [← hk2]
+    exact (Prod.mk.inj (hupd k hk)).1
+
+theorem integrateXddLink_rest (s : Sys K) (x : Tf K) (hs : HasSqrt.sqrt (1 : K) = 1)
+    (hu : Q4.normSq x.rot = 1) :
+    Positional.integrateXddLink s x (⟨0, 0⟩ : Motion K) ⟨0, 0⟩ = (x, ⟨0, 0⟩) := by
+  obtain ⟨⟨p1, p2, p3⟩, ⟨w, a, b, c⟩⟩ := x
+  have hq : (⟨w + (0 * w - 0 * a - 0 * b - 0 * c), a + (0 * a + 0 * w + 0 * c - 0 * b),
+      b + (0 * b - 0 * c + 0 * w + 0 * a), c + (0 * c + 0 * b - 0 * a + 0 * w)⟩ : Q4 K) = ⟨w, a, b, c⟩ := by
+    congr 1 <;> ring
+  simp only [Positional.integrateXddLink, angToQuat, quatMul, q4_add_def, V3.smul, V3.add_def, v3_zero_x,
+    v3_zero_y, v3_zero_z, mul_zero, zero_mul, add_zero, sub_zero]
+  simp only [show ∀ t : K, (0 : K) - 0 * t = 0 from fun t => by ring, add_zero, zero_add,
+    normalize4_unit' ⟨w, a, b, c⟩ hs hu]
+  rfl
+
+/-- **positional pipeline, rest case.**  A consistent state with zero velocities and unit link
+quaternions, in a system without gravity, actuators and contact, whose joint-frame forces and joint
+position corrections all vanish, is returned unchanged by `pipeline.step`. -/
+theorem positional_rest_of_zero_displacements
+    (inv : List (Tf K) → List (Motion K) → List K × List K)
+    (cf : List (Tf K) → List (Contact K)) (s : Sys K) (st : Positional.State K) (act : List K)
+    (hc : PosConsistent inv s st) (hq : Quiet s) (hdt : s.dt ≠ 0)
+    (hrest : ∀ i, i < s.numLinks → nth st.xd i = ⟨0, 0⟩)
+    (hunit : ∀ i, i < s.numLinks → Q4.normSq (nth st.x i).rot = 1)
+    (hcf : ∀ x, cf x = [])
+    (hjf : ∀ i, i < s.numLinks →
+      nth (Positional.jointForces s st.jd (List.replicate s.nv 0)) i = ⟨0, 0⟩)
+    (hdisp : ∀ i, i < s.numLinks → nth (Positional.jointDisplacements s st.j st.a_p) i = (0, 0)) :
+    Positional.step inv cf s st act = st := by
+  have hxi : st.x_i = tab s.numLinks fun i => Tf.doTf (nth st.x i) (tfPos (nth s.links i).inertia.tf.pos) := by
+    have := hc.hcom; simp only [Com.fromWorld] at this; exact (Prod.mk.inj this).1.symm
+  have hxdi : st.xd_i = tab s.numLinks fun _ => (⟨0, 0⟩ : Motion K) := by
+    have := hc.hcom; simp only [Com.fromWorld] at this
+    rw [← (Prod.mk.inj this).2]
+    apply tab_congr
+    intro i hi
+    simp only [hrest i hi, doMotion_zero]
+  have hxilen : st.x_i.length = s.numLinks := by rw [hxi, tab_length]
+  have hxiunit : ∀ i, i < s.numLinks → Q4.normSq (nth st.x_i i).rot = 1 := by
+    intro i hi
+    rw [hxi, nth_tab _ hi]
+    simp only [Tf.doTf, tfPos, quatMul_one]
+    exact hunit i hi
+  -- acceleration level
+  have hxf : ∀ i, i < s.numLinks →
+      nth (Positional.accelerationUpdate s st (toTau s act st.q st.qd)) i = ⟨0, 0⟩ := by
+    intro i hi
+    unfold Positional.accelerationUpdate
+    rw [toTau_noacts s hq.hacts]
+    exact assemble_zero _ _ _ _ _ (by rw [hq.hpar]; exact hjf) (by rw [hq.hpar]; exact hi)
+  have hxdd : Positional.acceleration s (Com.invInertia s st.x) st.mass
+      (Positional.accelerationUpdate s st (toTau s act st.q st.qd))
+      = tab s.numLinks fun _ => (⟨0, 0⟩ : Motion K) := by
+    unfold Positional.acceleration
+    apply tab_congr
+    intro i hi
+    rw [hxf i hi, hq.hg]
+    simp only [mulVec_zero, smul_zero', v3_zero_add]
+  have hint : Positional.integrateXdd s st.x_i st.xd_i (tab s.numLinks fun _ => (⟨0, 0⟩ : Motion K))
+      = (st.x_i, st.xd_i) := by
+    unfold Positional.integrateXdd
+    simp only []
+    have hrow : ∀ i, i < s.numLinks →
+        Positional.integrateXddLink s (nth st.x_i i) (nth st.xd_i i)
+          (nth (tab s.numLinks fun _ => (⟨0, 0⟩ : Motion K)) i) = (nth st.x_i i, ⟨0, 0⟩) := by
+      intro i hi
+      rw [nth_tab _ hi]
+      have : nth st.xd_i i = ⟨0, 0⟩ := by rw [hxdi, nth_tab _ hi]
+      rw [this]
+      exact integrateXddLink_rest s _ hq.hsqrt (hxiunit i hi)
+    congr 1
+    · conv_rhs => rw [eq_tab_of_length hxilen]
+      apply tab_congr; intro i hi; rw [hrow i hi]
+    · conv_rhs => rw [hxdi]
+      apply tab_congr; intro i hi; rw [hrow i hi]
+  have htw : Com.toWorld s st.x_i st.xd_i = (st.x, st.xd) := by
+    unfold Com.toWorld
+    simp only []
+    congr 1
+    · conv_rhs => rw [eq_tab_of_length hc.hx]
+      apply tab_congr; intro i hi
+      rw [hxi, nth_tab _ hi, toWorld_fromWorld_pos]
+    · conv_rhs => rw [eq_tab_of_length hc.hxd]
+      apply tab_congr; intro i hi
+      rw [hxdi, nth_tab _ hi, doMotion_zero, hrest i hi]
+  -- position level
+  have hst1 : ({ st with x := st.x, xd := st.xd, x_i := st.x_i, xd_i := st.xd_i } : Positional.State K) = st := by
+    cases st; rfl
+  have hpu : Positional.positionUpdate s st = st.x_i := by
+    unfold Positional.positionUpdate
+    simp only [hc.hj, hc.hap, hc.hac]
+    exact positionAssemble_zero _ _ _ _ _ _ _ _ _ (by rw [hxilen, hq.hpar]) (by rw [hq.hpar]; exact hdisp)
+  have hproj : Positional.projectXd s st.x_i st.x_i = st.xd_i := by
+    conv_rhs => rw [hxdi]
+    unfold Positional.projectXd
+    apply tab_congr
+    intro i _
+    obtain ⟨⟨p1, p2, p3⟩, ⟨w, a, b, c⟩⟩ := nth st.x_i i
+    simp only [V3.sub_def, sub_self, zero_div, relativeQuat, quatMul, quatInv]
+    have e1 : w * -a + a * w + b * -c - c * -b = 0 := by ring
+    have e2 : w * -b - a * -c + b * w + c * -a = 0 := by ring
+    have e3 : w * -c + a * -b - b * -a + c * w = 0 := by ring
+    simp only [e1, e2, e3, mul_zero, zero_div, v3_zero_x, v3_zero_y, v3_zero_z]
+    rfl
+  have hxdv : Positional.integrateXdv s st.xd_i (tab s.numLinks fun _ => (⟨0, 0⟩ : Motion K)) = st.xd_i := by
+    conv_rhs => rw [hxdi]
+    unfold Positional.integrateXdv
+    apply tab_congr
+    intro i hi
+    rw [hxdi, nth_tab _ hi]
+    simp only [smul_zero', v3_add_zero]
+  -- put the step together
+  unfold Positional.step
+  simp only [hxdd, hint, htw, hst1, hpu, hcf, Positional.resolvePosition, Positional.resolveVelocity,
+    List.isEmpty_nil, if_true, hproj, hxdv, hc.hj, hc.hjd, hc.hap, hc.hac, hc.hinv]
+
+theorem linkSlices_qd_mem {α : Type} (ts : List LinkType) :
+    ∀ (q qd : List α) (ds : List (DofP α)), ∀ l ∈ Kin.linkSlices ts q qd ds, ∀ t ∈ l.qd, t ∈ qd := by
+  induction ts with
+  | nil => intro q qd ds l hl; simp [Kin.linkSlices] at hl
+  | cons t ts ih =>
+    intro q qd ds l hl x hx
+    simp only [Kin.linkSlices, List.mem_cons] at hl
+    rcases hl with rfl | hl
+    · exact List.mem_of_mem_take hx
+    · exact List.mem_of_mem_drop (ih _ _ _ l hl x hx)
+
+theorem sumV_zipWith_zero (f : DofP K → V3 K) (ts : List K) (ds : List (DofP K))
+    (h : ∀ t ∈ ts, t = 0) : sumV (List.zipWith (fun t d => V3.smul t (f d)) ts ds) = 0 := by
+  induction ts generalizing ds with
+  | nil => simp [sumV]
+  | cons t ts ih =>
+    cases ds with
+    | nil => simp [sumV]
+    | cons d ds =>
+      have ht : t = 0 := h t (by simp)
+      have := ih ds (fun x hx => h x (List.mem_cons_of_mem _ hx))
+      simp only [sumV, List.zipWith_cons_cons, List.sum_cons] at this ⊢
+      rw [this, ht, zero_smul']
+      exact V3.add_zero' _
+
+/-- `_damp` with no torque and no joint-frame velocity is the zero force (every link type) -/
+theorem damp_zero (lk : LinkP K) (dofs : List (DofP K)) (tau : List K) (h : ∀ t ∈ tau, t = 0) :
+    Positional.damp lk (⟨⟨0, 0, 0⟩, ⟨0, 0, 0⟩⟩ : Motion K) dofs tau = ⟨0, 0⟩ := by
+  unfold Positional.damp
+  simp only [sumV_zipWith_zero (fun d => d.motion.vel) tau dofs h,
+    sumV_zipWith_zero (fun d => d.motion.ang) tau dofs h, smul_zero_lit]
+  have : (0 : V3 K) - ⟨0, 0, 0⟩ = 0 := v3_sub_zero 0
+  rw [this]
+
+/-- the positional joint-frame forces vanish when the joint-frame velocities and the torques do -/
+theorem posJointForces_zero (s : Sys K) (jd : List (Motion K))
+    (hjd : ∀ i, i < s.numLinks → nth jd i = ⟨⟨0, 0, 0⟩, ⟨0, 0, 0⟩⟩) {i : Nat} (hi : i < s.numLinks) :
+    nth (Positional.jointForces s jd (List.replicate s.nv 0)) i = ⟨0, 0⟩ := by
+  unfold Positional.jointForces
+  rw [nth_tab _ hi]
+  cases hl : (Kin.linkSlices s.types ([] : List K) (List.replicate s.nv 0) s.dofs)[i]? with
+  | none => rfl
+  | some l =>
+    have hmem : l ∈ Kin.linkSlices s.types ([] : List K) (List.replicate s.nv 0) s.dofs :=
+      List.mem_of_getElem? hl
+    have hz : ∀ t ∈ l.qd, t = 0 := fun t ht =>
+      List.eq_of_mem_replicate (linkSlices_qd_mem s.types _ _ _ l hmem t ht)
+    simp only []
+    cases l.typ <;> simp only [hjd i hi, damp_zero _ _ _ hz]
+
+end posRest
 
 end Brax.C04L
